@@ -36,6 +36,7 @@ pub fn dispatch(prop: &str, cfg: &RunCfg, out: &Out) {
         "C15" => c15::run(cfg, out),
         "C16" => c16::run(cfg, out),
         "C17" => c17::run(cfg, out),
+        "C18" => c18::run(cfg, out),
         other => out.inconclusive(&format!("no workload for {}", other)),
     }
     super::client::cleanup_scratch();
